@@ -507,6 +507,9 @@ def run(pm, ctx):
     ctx.import_rules(pm, 'C02', {'C02-R5'}, 'C04-R10',
                      'required / optional field listings of the IR are complete, parent first, with '
                      'complementary predicates (shared with C02-R5)')
+    ctx.import_rules(pm, 'C02', {'C02-R12'}, 'C04-R11',
+                     'the unwrap helpers of the IR peel exactly the wrappers their names say '
+                     '(shared with C02-R12)')
     from ..effects import run_decisions
     from ..ownership import OWN
     run_decisions(pm, ctx, 'C04-RD', OWN['C04'])
